@@ -1290,6 +1290,11 @@ class TLSConnection(TLSRecordLayer):
                                                "an (EC)DH group")
         if sr_kex:
             sr_kex = sr_kex.server_share
+            if sr_kex is None:
+                for result in self._sendError(
+                        AlertDescription.decode_error,
+                        "Empty key_share extension in Server Hello"):
+                    yield result
             self.ecdhCurve = sr_kex.group
             cl_key_share_ex = clientHello.getExtension(ExtensionType.key_share)
             cl_kex = next((i for i in cl_key_share_ex.client_shares
@@ -3473,8 +3478,13 @@ class TLSConnection(TLSRecordLayer):
 
         #If client's version is too low, reject it
         real_version = clientHello.client_version
+        ext = clientHello.getExtension(ExtensionType.supported_versions)
+        if ext and not ext.versions:
+            for result in self._sendError(
+                    AlertDescription.decode_error,
+                    "Empty supported_versions extension"):
+                yield result
         if real_version >= (3, 3):
-            ext = clientHello.getExtension(ExtensionType.supported_versions)
             if ext:
                 for v in ext.versions:
                     if v in KNOWN_VERSIONS and v > real_version:
